@@ -93,8 +93,16 @@ def _real_positive_required(c, what):
             raise DomainError(what)
 
 
+def _no_overflow(c):
+    """binary64 overflows beyond exp(709): such points are outside the domain of the float program (and a
+    multiprecision exp of an astronomically large argument would never return)"""
+    if abs(mp.re(c)) > 700:
+        raise DomainError('overflow')
+
+
 def exp(u, first=None):
     K = len(u)
+    _no_overflow(u[0])
     e = [mp.exp(u[0])]
     for k in range(1, K):
         s = mp.mpf(0)
@@ -175,6 +183,8 @@ def sqrt(u):
 
 def sincos(u):
     K = len(u)
+    if abs(u[0]) > 1e15:
+        raise DomainError('argument too large for a meaningful float sine')
     s = [mp.sin(u[0])]
     c = [mp.cos(u[0])]
     for k in range(1, K):
@@ -191,6 +201,7 @@ def sincos(u):
 
 def sinhcosh(u):
     K = len(u)
+    _no_overflow(u[0])
     s = [mp.sinh(u[0])]
     c = [mp.cosh(u[0])]
     for k in range(1, K):
